@@ -225,4 +225,61 @@ theorem wussFull_total' (ss : Bytes) (ct : List Nat) (h : wuss2ct ss = some ct) 
           simp only [if_true]
           exact Or.inr ⟨hu, hc⟩
 
+/-- WUSS -> KH -> WUSS on one symbol: every opening bracket becomes `<`, every closing one `>`, every unpaired symbol `.`,
+    letters stay -/
+theorem khkh_facts_nat : ∀ n, n < 256 →
+    (isOpenBr (UInt8.ofNat n) = true → kh2wussChar (wuss2khChar (UInt8.ofNat n)) = chLt ∧
+        kh2wussChar (wuss2khChar (closerOf (UInt8.ofNat n))) = chGt) ∧
+    (isUpper (UInt8.ofNat n) = true → kh2wussChar (wuss2khChar (UInt8.ofNat n)) = UInt8.ofNat n ∧
+        kh2wussChar (wuss2khChar (toLower (UInt8.ofNat n))) = toLower (UInt8.ofNat n)) ∧
+    (isUnpairedSym (UInt8.ofNat n) = true → isUnpairedSym (kh2wussChar (wuss2khChar (UInt8.ofNat n))) = true) := by
+  decide +kernel
+
+theorem khkh_facts (c : UInt8) :
+    (isOpenBr c = true → kh2wussChar (wuss2khChar c) = chLt ∧ kh2wussChar (wuss2khChar (closerOf c)) = chGt) ∧
+    (isUpper c = true → kh2wussChar (wuss2khChar c) = c ∧ kh2wussChar (wuss2khChar (toLower c)) = toLower c) ∧
+    (isUnpairedSym c = true → isUnpairedSym (kh2wussChar (wuss2khChar c)) = true) := by
+  have := khkh_facts_nat c.toNat (UInt8.toNat_lt c)
+  rw [ofNat_toNat] at this; exact this
+
+theorem khkh_getD (ss : Bytes) (k : Nat) (hk : k < ss.length) :
+    (kh2wuss (wuss2kh ss)).getD k 0 = kh2wussChar (wuss2khChar (ss.getD k 0)) := by
+  simp [kh2wuss, wuss2kh, List.getD_eq_getElem?_getD, List.getElem?_map, List.getElem?_eq_getElem hk]
+
+/-- `esl_wuss2kh` followed by `esl_kh2wuss` keeps the pair table of every balanced WUSS string -/
+theorem kh_roundtrip_pairs' (ss : Bytes) (ct : List Nat) (h : wuss2ct ss = some ct) :
+    wuss2ct (kh2wuss (wuss2kh ss)) = some ct := by
+  have hct := wuss2ct_ctOk ss ct h
+  obtain ⟨hl, hcn⟩ := wuss2ct_class_labels ss ct h
+  have hrl : (kh2wuss (wuss2kh ss)).length = ss.length := by simp [kh2wuss, wuss2kh]
+  -- the opener class of a left end is unchanged
+  have hcls : ∀ p, ct.getD p 0 ≠ 0 → p < ct.getD p 0 →
+      openerClass ((kh2wuss (wuss2kh ss)).getD (p-1) 0) = openerClass (ss.getD (p-1) 0) := by
+    intro p h0 hlt
+    have hq := hct.2 p h0
+    rw [khkh_getD ss (p-1) (by omega)]
+    rcases (hl p hq.1 hq.2.1).2 hlt with ⟨ho, _⟩ | ⟨hu, _⟩
+    · rw [((khkh_facts _).1 ho).1, openerClass_open _ ho]; decide
+    · rw [((khkh_facts _).2.1 hu).1]
+  apply wuss2ct_of_class_labels' _ ct (by rw [hrl]; exact hct)
+  · intro i i' hi hi' hlt hlt2 hleft' hc
+    rw [hcls i hi (by omega), hcls i' hi' hleft'] at hc
+    exact hcn i i' hi hi' hlt hlt2 hleft' hc
+  · intro p hp1 hp2
+    rw [hrl] at hp2
+    rw [khkh_getD ss (p-1) (by omega)]
+    constructor
+    · intro hz
+      exact (khkh_facts _).2.2 ((hl p hp1 hp2).1 hz)
+    · intro hlt
+      have hq := hct.2 p (by omega)
+      rw [khkh_getD ss (ct.getD p 0 - 1) (by omega)]
+      rcases (hl p hp1 hp2).2 hlt with ⟨ho, hc⟩ | ⟨hu, hc⟩
+      · left
+        have f := (khkh_facts _).1 ho
+        rw [hc, f.1, f.2]; decide
+      · right
+        have f := (khkh_facts _).2.1 hu
+        rw [hc, f.1, f.2]; exact ⟨hu, rfl⟩
+
 end EaselModel.Msa
